@@ -188,9 +188,11 @@ func (r *Reader) decodeG3ScanLine1D() {
 	isWhite := true
 
 	numEOL := 0
+	lastState := S_Null
 
 	for xpos < r.Columns && r.err == nil {
 		runLength, state := r.decodeRun(isWhite)
+		lastState = state
 
 		runLength = min(runLength, r.Columns-xpos)
 		r.fillRowBits(xpos, xpos+runLength, isWhite != r.BlackIs1)
@@ -212,6 +214,19 @@ func (r *Reader) decodeG3ScanLine1D() {
 			isWhite = false
 		case S_TermB: // end of black run
 			isWhite = true
+		}
+	}
+
+	// A run which reaches the end of the line with a make-up code is still
+	// followed by its terminating code.
+	for range 64 {
+		if r.err != nil || (lastState != S_MakeUpW && lastState != S_MakeUpB && lastState != S_MakeUp) {
+			break
+		}
+		_, lastState = r.decodeRun(isWhite)
+		if lastState == S_EOL {
+			// the terminating code is missing
+			r.waitForOne()
 		}
 	}
 }
